@@ -782,3 +782,92 @@ def index_insert_retried(ctx, p):
                        'a fresh index insert that answers NeedReindex (nothing was inserted) is repeated after growing the index - in a retry loop at the call, or by the caller',
                        in_retry_loop or lifted, why, b.loc(s))
     ctx.ob(p + 'b fresh-insert-sites', 'anchor', '-', 'at least five fresh-insert call sites exist (new key, reindex batch, moved value; ref-count new, ref-count reindex)', n >= 5, 'found %d' % n)
+
+
+def old_table_records_skipped(ctx, p):
+    F = ctx.F
+    # a record may name an index / ref-count table that was dropped since it was written (the log is cleaned later than tables are
+    # dropped): the applier skips such a record (skip_plan); the validator has to skip it too - if it rejects it, replay throws the
+    # WHOLE log away, including later records that are already half applied
+    hv, he = F.body('column::HashColumn::validate_plan'), F.body('column::HashColumn::enact_plan')
+    if hv and he:
+        for callee in ('index::IndexTable::skip_plan', 'ref_count::RefCountTable::skip_plan'):
+            ae = lib.sites_reaching(he, [callee])
+            av = lib.sites_reaching(hv, [callee])
+            if ae:
+                ctx.ob(p + 'j old-table-records-skipped-by-validator %s' % callee.split('::')[-2], 'K9-agreement', hv.path,
+                       'the applier skips records that name a table which no longer exists (%s); the validator skips them as well instead of failing the replay' % callee,
+                       bool(av), 'HashColumn::validate_plan never calls %s (applier: %d site(s))' % (callee, len(ae)))
+        # and no "too old" branch of the validator ends in Corruption
+        bad = []
+        for bi in hv.normal_blocks():
+            for st in hv.blocks[bi]['s']:
+                if st['k'] == 'assign' and st['r']['k'] == 'agg' and st['r']['ak'] == 'Adt:error::Error::Corruption':
+                    calls, fields, binops = lib.guard_influences(hv, bi)
+                    if 'Lt' in binops and sum(1 for c in calls if c.endswith('::index_bits')) >= 1 and ('.IndexTable.id' in fields or '.RefCountTable.id' in fields or any('TableId' in f for f in fields)):
+                        # distinguish from the bounds checks: the comparison is between two table ids (index_bits of both sides)
+                        for (sw, yes, no) in hv.control_deps(bi):
+                            d = lib.switch_def(hv, sw)
+                            if d and d[2] == 'assign' and d[3]['r']['k'] == 'bin' and d[3]['r']['op'] == 'Lt':
+                                sls = [backward_slice(hv, [op_place(a)]) for a in d[3]['r']['a'] if op_place(a) is not None]
+                                if len(sls) == 2 and all(any(c.endswith('::index_bits') for c in sl.calls) for sl in sls):
+                                    bad.append(hv.loc(bi))
+        ctx.ob(p + 'j2 older-table-is-not-corruption', 'K9-agreement', hv.path,
+               'no branch that recognises a record for an older (dropped) table by comparing index_bits reports Corruption', not bad, 'Corruption built at %s' % sorted(set(bad)))
+
+
+def allocation_state_belongs_to_a_record(ctx, p):
+    """the fill mark / free-list head of a value table (what complete_plan writes into the NEXT record's header) changes only while
+    a record is being planned (functions that are handed the LogWriter) or when it is re-read from the file at startup. A change made
+    at commit time by a client thread is logged with whatever record the log worker completes next - an EARLIER commit's record -
+    and a crash after that record leaves slots that are neither live nor free."""
+    F = ctx.F
+    STARTUP = {'table::ValueTable::refresh_metadata', 'table::ValueTable::open', 'table::ValueTable::init_table_data'}
+    n = 0
+    seen = set()
+    for b in sorted(F.bodies.values(), key=lambda x: x.path):
+        hit = False
+        for bi, t in b.calls():
+            if call_matches(t, lib.ATOMIC_STORE + lib.ATOMIC_RMW) and t['a']:
+                fl = lib.receiver_fields(b, t, 0)
+                if '.ValueTable.filled' in fl or '.ValueTable.last_removed' in fl:
+                    hit = True
+        if not hit or b.path in seen:
+            continue
+        seen.add(b.path)
+        n += 1
+        has_writer = any('LogWriter' in str(x) for x in b.locals[1:b.argc + 1])
+        ok = has_writer or any(lib.site_in(F, k, b.path) for k in STARTUP)
+        ctx.ob(p + 'a allocation-state-changes-belong-to-a-record %s' % b.path, 'K4-confinement', b.path,
+               'ValueTable.filled / last_removed are changed only by functions that plan into a LogWriter (the change and the header that records it travel in the same record) or that re-read the header at startup',
+               ok, 'changes the allocation state without a LogWriter: its effect is logged by whichever record completes next', b.loc())
+    ctx.ob(p + 'b allocation-mutators', 'anchor', '-', 'the functions that advance the fill mark / free-list head were found', n >= 3, 'found %d' % n)
+
+
+def deferral_is_surgical(ctx, p):
+    """C11, second sentence: postponing a removal does not change the outcome of any other write."""
+    F = ctx.F
+    pc = ctx.body('db::DbInner::process_commits')
+    if not pc:
+        return
+    for s2 in pc.call_sites('db::DbInner::defer_commit'):
+        whole = False
+        for a in pc.term(s2)['a'][1:]:
+            if op_place(a) is None:
+                continue
+            sl = backward_slice(pc, [op_place(a)])
+            if '.Commit.changeset' in sl.fields and not any(F.body(c) is not None for c in sl.calls):
+                whole = True
+        ctx.ob(p + 'x deferral-requeues-only-the-dereference', 'K4-provenance', pc.path,
+               'what a deferral puts back at the end of the queue is not the whole commit: its key-value / btree / other-column operations keep their place in commit order (they are logged under the original id, or the commit is split)',
+               not whole, 'defer_commit is handed commit.changeset as it is: every operation of the transaction moves behind the commits made after it', pc.loc(s2))
+    # the decision "nobody uses the tree" is a test (is_locked) of a lock that is taken only later, by the walk, and released before
+    # the removal is published: a reader can lock in between
+    dec = False
+    for b in [pc] + [x for x in lib.family(F, pc.path) if x is not pc]:
+        if any(call_matches(t, ['re:RwLock.*::is_locked$']) for _, t in b.calls()):
+            dec = True
+    acq = any(call_matches(t, ['re:RwLock.*::try_write(_for|_until)?$', 're:RwLock.*::try_upgradable_read$']) for b in [pc] + lib.family(F, pc.path) for _, t in b.calls())
+    ctx.ob(p + 'y tree-lock-held-from-decision-to-publication', 'K5-held-at', pc.path,
+           'the log worker decides that a tree can be removed by ACQUIRING its lock (try_write) and keeps it until Log::end_record published the removal; testing is_locked and locking later leaves a window in which a reader locks a tree that is then removed under its lock',
+           acq and not dec if dec or acq else False, 'the decision tests RwLock::is_locked; the write lock is taken later inside write_plan and dropped before end_record')
